@@ -165,6 +165,30 @@ class _NoStream:
     _waiter = object()
 
 
+import io
+
+
+class Dribble(io.RawIOBase):
+    """a file-like object of unknown size (no fileno, no tell) whose reads are short: the i-th read returns at most
+    steps[i % len(steps)] bytes - like an unbuffered pipe or socket; EOF only when a read returns nothing"""
+
+    def __init__(self, data: bytes, steps):
+        super().__init__()
+        self._src = io.BytesIO(data)
+        self._steps = list(steps) or [1]
+        self._i = 0
+
+    def readable(self):
+        return True
+
+    def readinto(self, b):
+        step = self._steps[self._i % len(self._steps)]
+        self._i += 1
+        chunk = self._src.read(min(len(b), step))
+        b[: len(chunk)] = chunk
+        return len(chunk)
+
+
 class Nested:
     """a nested multipart part: what was given to the outer writer"""
 
@@ -219,13 +243,19 @@ def build_writer(spec):
         return f, content[pre:]
 
     if kind == "formdata":
-        fd = FormData(quote_fields=spec.get("quote_fields", True), boundary=spec["boundary"], default_to_multipart=True)
+        fd = FormData(quote_fields=spec.get("quote_fields", True), boundary=spec["boundary"], default_to_multipart=True,
+                      charset=spec.get("charset"))
         for i, p in enumerate(spec["parts"]):
             content = bytes.fromhex(p["content"])
             if p.get("file"):
                 val, content = file_value(i, p, content)
+            elif p.get("raw"):
+                val = Dribble(content, p["raw"]["steps"])
+            elif p.get("str"):
+                val = content.decode("utf-8")
+                content = val.encode(spec.get("charset") or "utf-8")      # a str value is sent in the form's charset
             else:
-                val = content.decode("utf-8") if p.get("str") else content
+                val = content
             fd.add_field(p["name"], val, content_type=p.get("ctype"), filename=p.get("filename"))
             origs.append(content)
         w = fd()
@@ -253,6 +283,8 @@ def build_writer(spec):
             hs["Content-Type"] = p["ctype"]
         if p.get("file"):
             val, content = file_value(i, p, content)
+        elif p.get("raw"):
+            val = Dribble(content, p["raw"]["steps"])
         else:
             val = content.decode("utf-8") if p.get("str") else content
         pl = w.append(val, hs)
@@ -615,6 +647,12 @@ def _gen_spec_flat(rng, quick=True, kinds=None, boundary=None):
     spec = {"kind": kind, "boundary": boundary, "parts": parts}
     if kind in ("form-data", "formdata"):
         spec["quote_fields"] = rng.random() < 0.6
+    if kind == "formdata" and rng.random() < 0.6:
+        # the form's charset governs how str VALUES are sent; names and file names stay utf-8 percent-encoded / verbatim
+        spec["charset"] = rng.choice(["utf-8", "koi8-r", "cp1251", "latin-1"])
+        for p in parts:
+            if rng.random() < 0.5:
+                p["filename"] = rng.choice(["отчёт.txt", "отчёт за май.txt", "café.txt", "naïve", "файл", "日本語.txt", "Ünï.bin"])
     return spec
 
 
@@ -655,7 +693,18 @@ def gen_spec(rng, quick=True, allow_files=True):
                 part["headers"] = [["X-Outer", "1"]]
             spec["parts"].insert(rng.randint(0, len(spec["parts"])), part)
             spec["parts"] = spec["parts"][:6]
-    if allow_files and rng.random() < 0.2:
+    if allow_files and rng.random() < 0.15:
+        # a part fed from a file-like object of unknown size whose reads come back short (pipe, socket, raw stream)
+        cands = [i for i, p in enumerate(spec["parts"]) if not p.get("nested") and not p.get("cte") and not p.get("ce")
+                 and not p.get("str")]
+        if cands:
+            i = rng.choice(cands)
+            p = spec["parts"][i]
+            p["raw"] = {"steps": rng.choice([[1], [1, 5, 1000], [3, 70000], [699], [65536], [2, 1, 100000]])}
+            if spec["kind"] == "formdata":
+                p["filename"] = p.get("filename") or "raw%d.bin" % i
+                p.pop("ctype", None)
+    elif allow_files and rng.random() < 0.2:
         cands = [i for i, p in enumerate(spec["parts"]) if not p.get("nested") and not p.get("cte") and not p.get("ce")
                  and not p.get("str")]
         rng.shuffle(cands)
@@ -996,6 +1045,8 @@ def suite_roundtrip(ctx, exe, specs=None):
             if len(spec_leaves(spec)) != len(spec["parts"]):
                 ctx.count("spec:nested")
             for p, _b in spec_leaves(spec):
+                if p.get("raw"):
+                    ctx.count("spec:unsized-short-read-part")
                 if p.get("file"):
                     ctx.count("spec:file-part" + ("-same-file-twice" if p["file"].get("same_as") is not None else "")
                               + ("-touched" if p["file"].get("touch_size") is not None or p["file"].get("touch_append") is not None else ""))
@@ -1003,6 +1054,8 @@ def suite_roundtrip(ctx, exe, specs=None):
                 if (p.get("cte") or "") != (p.get("cte") or "").lower() or (p.get("ce") or "") != (p.get("ce") or "").lower():
                     ctx.count("enc:mixed-case-token")
             ctx.count("kind:" + spec["kind"])
+            if spec.get("charset"):
+                ctx.count("formdata-charset:" + spec["charset"])
             ctx.count("wire:<64" if len(wire) < 64 else "wire:<1k" if len(wire) < 1024 else "wire:<8k" if len(wire) < 8192 else "wire:>=8k")
             ctx.count("segs:1" if len(segs) == 1 else "segs:<=16" if len(segs) <= 16 else "segs:<=256" if len(segs) <= 256 else "segs:>256")
     model = run_model_opt(exe, lines)
